@@ -211,7 +211,7 @@ def charge_edit(ev, why):
 
 def drive_and_validate(c, tier, ops=None):
     """Direction B: random edit histories on the real buffers, each call judged by TLC."""
-    hist, steps = (1000, 30) if tier == "quick" else (40000, 40)
+    hist, steps = (1000, 30) if tier == "quick" else (15000, 40)
     ev = vlib.run_drive("%s-%s" % (c.pid, tier), hist, steps)
     sel = (lambda e: e.get("op") in ops) if ops else None
     crash = vlib.LAST_DRIVE_CRASH.get(ev)
@@ -240,7 +240,7 @@ def charge_session(ev, why):
 
 def sessions_and_validate(c, tier, which):
     """Direction B for handles: sessions through one handle, validated by the stateful trace spec."""
-    n = 300 if tier == "quick" else 12000
+    n = 300 if tier == "quick" else 4000
     ev = vlib.run_drive_sessions("%s-%s" % (c.pid, tier), n)
     crash = vlib.LAST_DRIVE_CRASH.get(ev)
     if crash is not None and (which is None or crash.get("ev", "").endswith(which)):
